@@ -110,7 +110,6 @@ func (t *Trie) GetRangeProof(leftKey, rightKey *felt.Felt, proofSet *ProofNodeSe
 func VerifyProof(root, key *felt.Felt, proof *ProofNodeSet, hash crypto.HashFn) (felt.Felt, error) {
 	keyBits := new(Path).SetFelt(contractClassTrieHeight, key)
 	expected := *root
-	h := newHasher(hash, false)
 
 	for {
 		node, ok := proof.Get(expected)
@@ -118,12 +117,14 @@ func VerifyProof(root, key *felt.Felt, proof *ProofNodeSet, hash crypto.HashFn) 
 			return felt.Zero, fmt.Errorf("proof node not found, expected hash: %s", expected.String())
 		}
 
-		nHash, _ := h.hash(node)
-
-		// Verify the hash matches
-		hashVal := felt.Felt(*nHash.(*trienode.HashNode))
+		// Verify the hash matches. The hash is always recomputed from the node's content:
+		// a hash cached inside the (untrusted) proof node must not be taken on trust.
+		hashVal, err := proofNodeHash(node, hash)
+		if err != nil {
+			return felt.Zero, err
+		}
 		if !hashVal.Equal(&expected) {
-			return felt.Zero, fmt.Errorf("proof node hash mismatch, expected hash: %s, got hash: %s", expected.String(), nHash.String())
+			return felt.Zero, fmt.Errorf("proof node hash mismatch, expected hash: %s, got hash: %s", expected.String(), hashVal.String())
 		}
 
 		child := get(node, keyBits, false)
@@ -141,11 +142,53 @@ func VerifyProof(root, key *felt.Felt, proof *ProofNodeSet, hash crypto.HashFn) 
 		case *trienode.ValueNode:
 			return felt.Felt(*cld), nil
 		case *trienode.EdgeNode, *trienode.BinaryNode:
-			if hash, _ := cld.Cache(); hash != nil {
-				expected = felt.Felt(*hash)
+			// an embedded (non-collapsed) child: continue at its recomputed hash
+			childHash, err := proofNodeHash(cld, hash)
+			if err != nil {
+				return felt.Zero, err
 			}
+			expected = childHash
 		}
 	}
+}
+
+// proofNodeHash recomputes the hash of a proof node from its content, ignoring any cached hash,
+// and rejects structurally incomplete nodes instead of panicking on them.
+func proofNodeHash(n trienode.Node, hash crypto.HashFn) (felt.Felt, error) {
+	if err := checkProofNode(n); err != nil {
+		return felt.Zero, err
+	}
+	return n.Hash(hash), nil
+}
+
+func checkProofNode(n trienode.Node) error {
+	switch n := n.(type) {
+	case *trienode.BinaryNode:
+		if n == nil {
+			return errors.New("nil binary proof node")
+		}
+		for _, child := range n.Children {
+			if err := checkProofNode(child); err != nil {
+				return err
+			}
+		}
+	case *trienode.EdgeNode:
+		if n == nil || n.Path == nil {
+			return errors.New("edge proof node without a path")
+		}
+		return checkProofNode(n.Child)
+	case *trienode.HashNode:
+		if n == nil {
+			return errors.New("nil hash node in proof")
+		}
+	case *trienode.ValueNode:
+		if n == nil {
+			return errors.New("nil value node in proof")
+		}
+	default:
+		return fmt.Errorf("proof node with a missing or unknown child: %T", n)
+	}
+	return nil
 }
 
 // verifyProofData validates the consistency of keys and values
